@@ -13,6 +13,12 @@
 // diff switch"), so the bound is the structural maximum: these are complete, not bounded.
 
 use super::*;
+// vacuity guards: a cover that must be SATISFIED.  Compiled out (env VERIF_NO_COVER, set only by the
+// engine's counterexample re-run) because Kani's concrete playback emits a single test per harness and
+// prefers a satisfied cover over the failed assertion.
+macro_rules! vcover {
+    ($($t:tt)*) => { if option_env!("VERIF_NO_COVER").is_none() { kani::cover!($($t)*); } };
+}
 
 fn arb_cases(n: usize) -> Vec<Option<u8>> {
     // n <= 8 symbolic cases; the first case is always present (the parser guarantees it)
@@ -70,8 +76,8 @@ fn c14_partition() {
         count += 1;
     }
     assert!(union == (1u32 << n) - 1);
-    kani::cover!(count == 8);
-    kani::cover!(count == 1 && n == 8);
+    vcover!(count == 8);
+    vcover!(count == 1 && n == 8);
 }
 
 fn spec_select_index(cases: &[Option<u8>], d: usize) -> usize {
